@@ -349,6 +349,28 @@ fn check_sk(c: &SkC8, ctx: &mut CaseCtx) -> Result<(), Failure> {
     ctx.check(format!("{:?}", tc) == format!("Commitment({:?})", naive), sig(P, "skzg", "commit", "not_key_defined_sum"), || {
         "streaming commitment differs from the naive sum over the published powers".into()
     })?;
+    // index_by: the derived key commits q to the same element as the original key commits p, p[j] = q[idx[j]]
+    // (indices generated with repetitions, values below the key length)
+    {
+        let klen = g.len();
+        let mut gi = rng(c.seed ^ 0x1d);
+        use rand_core::RngCore;
+        let span = 1 + (gi.next_u64() as usize) % p.len().min(klen);
+        let idx: Vec<usize> = (0..p.len().min(klen)).map(|_| (gi.next_u64() as usize) % span).collect();
+        let q: Vec<Fr> = (0..span).map(|_| Fr::rand(&mut gi)).collect();
+        let expanded: Vec<Fr> = idx.iter().map(|i| q[*i]).collect();
+        let mut sorted = idx.clone();
+        sorted.sort();
+        sorted.dedup();
+        ctx.label_if(sorted.len() < idx.len(), "index_by_with_repeated_indices");
+        if let (Out::Ok(ik), Out::Ok(want)) = (guard_plain(|| ck.index_by(&idx)), guard_plain(|| ck.commit(&expanded))) {
+            if let Out::Ok(got) = guard_plain(|| ik.commit(&q)) {
+                ctx.check(got == want, sig(P, "skzg", "index_by", "not_key_defined_sum"), || {
+                    format!("index_by({} indices over {span} slots).commit(q) differs from commit of the expanded vector", idx.len())
+                })?;
+            }
+        }
+    }
     // a folded stream (the polynomial folded `depth` times with challenges) commits to the naive sum over
     // the published powers of the folded coefficients - for every length, multiple of 2^depth or not
     let depth = (c.extra as usize / 4) % 4;
